@@ -3,12 +3,14 @@ package rules
 import (
 	"fmt"
 	"go/token"
+	"go/types"
 	"math/big"
 
 	"golang.org/x/tools/go/ssa"
 
 	"manticheck/internal/codec"
 	"manticheck/internal/lin"
+	"manticheck/internal/prove"
 )
 
 // R5: GSS-API / SPNEGO framing (X.690 definite-length octets).
@@ -169,6 +171,9 @@ func (c *c08) encodeLength1(fn *ssa.Function, name string) {
 	st := codec.NewStreamer(fn, c.P.InModule)
 	var short, long *ssa.Return
 	var mk *ssa.MakeSlice
+	var beTail *ssa.Slice // long form returned as buf[8-N:] of a fixed 8-byte buffer
+	var nLen ssa.Value    // the SSA value of the octet count N
+	var nAt ssa.Instruction
 	for _, b := range fn.Blocks {
 		ret, ok := b.Instrs[len(b.Instrs)-1].(*ssa.Return)
 		if !ok || len(ret.Results) != 1 {
@@ -179,8 +184,18 @@ func (c *c08) encodeLength1(fn *ssa.Function, name string) {
 				r.Undecided(rule, name+": long form", c.ipos(ret), "more than one return of a made buffer")
 				return
 			}
-			long, mk = ret, m
+			long, mk, nLen, nAt = ret, m, m.Len, m
 			continue
+		}
+		if sl, isSl := ret.Results[0].(*ssa.Slice); isSl && sl.Low != nil && sl.High == nil && sl.Max == nil {
+			if _, isK := c08ConstInt(sl.Low); !isK {
+				if long != nil {
+					r.Undecided(rule, name+": long form", c.ipos(ret), "more than one long-form return")
+					return
+				}
+				long, beTail, nAt = ret, sl, sl
+				continue
+			}
 		}
 		if short != nil {
 			r.Undecided(rule, name+": short form", c.ipos(ret), "more than two returns")
@@ -219,71 +234,134 @@ func (c *c08) encodeLength1(fn *ssa.Function, name string) {
 			return
 		}
 	}
-	// (b) octet count: N = number of iterations of `for t := length; t > 0; t >>= 8 { N++ }`
-	N := z.Of(mk.Len)
-	{
-		construct := name + ": octet count"
-		np, isPhi := c08Strip(mk.Len).(*ssa.Phi)
-		if !isPhi {
-			r.Undecided(rule, construct, c.ipos(mk), "the buffer length is not a loop counter: "+z.String(N))
+	if beTail != nil {
+		// buf[W-N:] of a W-byte buffer: N is what is subtracted from the width
+		w := z.LenOf(beTail.X)
+		if sub, isB := c08Strip(beTail.Low).(*ssa.BinOp); isB && sub.Op == token.SUB && z.Of(sub.X).Equal(w) {
+			nLen = sub.Y
+		} else {
+			r.Undecided(rule, name+": octet count", c.ipos(beTail), "the long form is a tail of a buffer whose start is not width - N: "+z.String(z.Of(beTail.Low)))
 			return
 		}
-		hb := np.Block()
-		lps := c08LoopPhis(z, hb)
-		cnt := lps[np]
-		var tmp *c08LoopPhi
-		for _, lp := range lps {
-			if lp.shift == 8 && c08Strip(lp.init) == ssa.Value(param) {
-				tmp = lp
+	}
+	// (b) octet count: N = number of iterations of `for t := length; t > 0; t >>= 8 { N++ }`
+	N := z.Of(nLen)
+	{
+		construct := name + ": octet count"
+		np, isPhi := c08Strip(nLen).(*ssa.Phi)
+		if how, bad := c.octetsClosedForm(nLen, param); how != "" || bad != "" {
+			// N computed from the bit length: (bits.Len(uint(length)) + 7) / 8
+			if bad != "" {
+				r.Fail(rule, construct, c.ipos(nAt), bad+" (the long form must use ceil(bitlen(length)/8) octets)")
+				return
 			}
-		}
-		var body *ssa.BasicBlock
-		for _, s := range hb.Succs {
-			if hb.Dominates(s) && c08Reaches(s, hb) {
-				body = s
+			r.OK(rule, construct, c.ipos(nAt), how)
+			isPhi = false
+		} else if isPhi && !c08IsLoopHeader(np.Block()) {
+			// N chosen by a ladder of range tests: every constant k must be chosen
+			// exactly for 256^(k-1) <= length < 256^k
+			if bad := c.octetsLadder(fi, np, param); bad != "" {
+				r.Fail(rule, construct, c.ipos(np), bad+" (the long form must use ceil(bitlen(length)/8) octets)")
+				return
 			}
+			r.OK(rule, construct, c.ipos(np), "N = k is chosen only where 256^(k-1) <= length <= 256^k - 1 (E1, on every edge into the join)")
+			isPhi = false
+		} else if !isPhi {
+			r.Undecided(rule, construct, c.ipos(nAt), "the buffer length is not a loop counter: "+z.String(N))
+			return
 		}
-		okc := false
-		why := ""
-		switch {
-		case cnt == nil || cnt.stride == nil || cnt.stride.Cmp(big.NewInt(1)) != 0:
-			why = "the octet counter does not advance by 1 per iteration"
-		case !func() bool { k, isK := c08ConstInt(cnt.init); return isK && k.Sign() == 0 }():
-			why = "the octet counter does not start at 0"
-		case tmp == nil:
-			why = "no loop variable starts at `length` and is shifted right by 8 per iteration"
-		case body == nil:
-			why = "loop body not found"
-		default:
-			// continue iff tmp > 0  (tmp - 1 >= 0), or tmp != 0 for the non-negative value
-			f, ok := c08ContForm(z, hb, body)
-			if ok && f.Equal(z.Of(tmp.phi).AddK(-1)) {
-				okc = true
-			} else if iff, isIf := hb.Instrs[len(hb.Instrs)-1].(*ssa.If); isIf {
-				if cmp, isB := iff.Cond.(*ssa.BinOp); isB && (cmp.Op == token.NEQ || cmp.Op == token.EQL) {
-					x, k := cmp.X, cmp.Y
-					if _, isK := c08ConstInt(x); isK {
-						x, k = k, x
+		if isPhi {
+			hb := np.Block()
+			lps := c08LoopPhis(z, hb)
+			cnt := lps[np]
+			var tmp *c08LoopPhi
+			for _, lp := range lps {
+				if lp.shift == 8 && c08Strip(lp.init) == ssa.Value(param) {
+					tmp = lp
+				}
+			}
+			var body *ssa.BasicBlock
+			for _, s := range hb.Succs {
+				if hb.Dominates(s) && c08Reaches(s, hb) {
+					body = s
+				}
+			}
+			okc := false
+			why := ""
+			switch {
+			case cnt == nil || cnt.stride == nil || cnt.stride.Cmp(big.NewInt(1)) != 0:
+				why = "the octet counter does not advance by 1 per iteration"
+			case !func() bool { k, isK := c08ConstInt(cnt.init); return isK && k.Sign() == 0 }():
+				why = "the octet counter does not start at 0"
+			case tmp == nil:
+				why = "no loop variable starts at `length` and is shifted right by 8 per iteration"
+			case body == nil:
+				why = "loop body not found"
+			default:
+				// continue iff tmp > 0  (tmp - 1 >= 0), or tmp != 0 for the non-negative value
+				f, ok := c08ContForm(z, hb, body)
+				if ok && f.Equal(z.Of(tmp.phi).AddK(-1)) {
+					okc = true
+				} else if iff, isIf := hb.Instrs[len(hb.Instrs)-1].(*ssa.If); isIf {
+					if cmp, isB := iff.Cond.(*ssa.BinOp); isB && (cmp.Op == token.NEQ || cmp.Op == token.EQL) {
+						x, k := cmp.X, cmp.Y
+						if _, isK := c08ConstInt(x); isK {
+							x, k = k, x
+						}
+						kv, isK := c08ConstInt(k)
+						cont := hb.Succs[0]
+						if cmp.Op == token.EQL {
+							cont = hb.Succs[1]
+						}
+						if isK && kv.Sign() == 0 && c08Strip(x) == ssa.Value(tmp.phi) && cont == body {
+							okc = true
+						}
 					}
-					kv, isK := c08ConstInt(k)
-					cont := hb.Succs[0]
-					if cmp.Op == token.EQL {
-						cont = hb.Succs[1]
-					}
-					if isK && kv.Sign() == 0 && c08Strip(x) == ssa.Value(tmp.phi) && cont == body {
-						okc = true
-					}
+				}
+				if !okc {
+					why = "the counting loop does not run exactly while the shifted length is > 0"
 				}
 			}
 			if !okc {
-				why = "the counting loop does not run exactly while the shifted length is > 0"
+				r.Fail(rule, construct, c.ipos(np), why+" (the long form must use ceil(bitlen(length)/8) octets)")
+				return
+			}
+			r.OK(rule, construct, c.ipos(np), "N = number of 8-bit shifts until length becomes 0 = ceil(bitlen/8)")
+		}
+	}
+	if beTail != nil {
+		// (c') the tail of the big-endian image of the length in a fixed buffer: its
+		// last N octets are bits 8(N-1)..0, most significant first
+		construct := name + ": octet order"
+		var whole ssa.Value
+		if refs := beTail.X.Referrers(); refs != nil {
+			for _, ref := range *refs {
+				if sl, ok := ref.(*ssa.Slice); ok && sl != beTail && sl.Low == nil && sl.High == nil && sl.Max == nil {
+					whole = sl
+				}
 			}
 		}
-		if !okc {
-			r.Fail(rule, construct, c.ipos(np), why+" (the long form must use ceil(bitlen(length)/8) octets)")
+		if _, isMk := beTail.X.(*ssa.MakeSlice); isMk {
+			whole = beTail.X
+		}
+		if whole == nil {
+			r.Undecided(rule, construct, c.ipos(beTail), "the buffer the long form is cut from is never written as a whole")
 			return
 		}
-		r.OK(rule, construct, c.ipos(np), "N = number of 8-bit shifts until length becomes 0 = ceil(bitlen/8)")
+		ps := st.Stream(whole)
+		switch {
+		case len(ps) != 1 || ps[0].Kind != "int":
+			r.Undecided(rule, construct, c.ipos(beTail), "the buffer the long form is cut from is "+codec.RenderPieces(ps)+", not one integer")
+		case c08Strip(ps[0].Val) != ssa.Value(param) || !c08Wide(ps[0].Val):
+			r.Fail(rule, construct, c.ipos(ps[0].At), "the integer written into the buffer is not the (untruncated) length")
+		case ps[0].Order != "BE":
+			r.Fail(rule, construct, c.ipos(ps[0].At), "the length is written little-endian; DER long form is big-endian (most significant octet first)")
+		case ps[0].Width != 8:
+			r.Fail(rule, construct, c.ipos(ps[0].At), fmt.Sprintf("the length is written as %d octets, which drops the high bits of an int length", ps[0].Width))
+		default:
+			r.OK(rule, construct, c.ipos(beTail), "the last N octets of the 8-octet big-endian length: most significant octet first")
+		}
+		return
 	}
 	// (c) fill: result[N-1-k] = byte(length >> 8k), k = 0..N-1
 	{
@@ -382,6 +460,21 @@ func (c *c08) encodeLength1(fn *ssa.Function, name string) {
 			}
 		}
 		wantIdx := N.AddK(-1).Sub(k)
+		if body == hb && okCont {
+			// a bottom-tested (rotated) loop, as range-over-int compiles to: the test
+			// after iteration k decides iteration k+1, and the entry edge decides
+			// iteration 0 (it must be taken only with N >= 1)
+			cont = cont.AddK(1)
+			for i, pr := range hb.Preds {
+				if hb.Dominates(pr) {
+					continue
+				}
+				ectx := fi.CtxEdge(hb.Preds[i], hb)
+				if !ectx.Prove(lin.GE(ectx.Lin(mk.Len), lin.K(1))) {
+					okCont = false
+				}
+			}
+		}
 		switch {
 		case !shift.Equal(k.ScaleI(8)):
 			r.Fail(rule, construct, c.ipos(stI), "iteration k stores byte(length >> "+z.String(shift)+"); successive octets must be 8 bits apart (>> 8·k)")
@@ -393,6 +486,147 @@ func (c *c08) encodeLength1(fn *ssa.Function, name string) {
 			r.OK(rule, construct, c.ipos(stI), "result[N-1-k] = byte(length >> 8k) for k = 0..N-1: most significant octet first")
 		}
 	}
+}
+
+// c08Wide: v is reached from its source through conversions between 64-bit
+// integer types only (exact for the non-negative lengths of the long form).
+func c08Wide(v ssa.Value) bool {
+	for {
+		switch x := v.(type) {
+		case *ssa.Convert:
+			db, ok := x.Type().Underlying().(*types.Basic)
+			if !ok || db.Info()&types.IsInteger == 0 || c08Bits(db) != 64 {
+				return false
+			}
+			v = x.X
+			continue
+		case *ssa.ChangeType:
+			v = x.X
+			continue
+		}
+		return true
+	}
+}
+
+func c08IsLoopHeader(b *ssa.BasicBlock) bool {
+	for _, p := range b.Preds {
+		if b.Dominates(p) {
+			return true
+		}
+	}
+	return false
+}
+
+// octetsClosedForm recognises N = (bits.Len(uint(length)) + 7) / 8 (also >> 3,
+// bits.Len64(uint64(length))): the number of octets of a positive length. how
+// is set when the form is exactly that, bad when it is a bit-length formula
+// that is not ceil(bitlen/8).
+func (c *c08) octetsClosedForm(n ssa.Value, param *ssa.Parameter) (how, bad string) {
+	bitLen := func(v ssa.Value) (string, bool) {
+		call, f := c08StaticCall(c08Strip(v))
+		if call == nil || f == nil {
+			return "", false
+		}
+		switch f.String() {
+		case "math/bits.Len", "math/bits.Len64", "math/bits.Len32", "math/bits.Len16", "math/bits.Len8":
+		default:
+			return "", false
+		}
+		return f.String(), true
+	}
+	var find func(v ssa.Value, d int) *ssa.Call
+	find = func(v ssa.Value, d int) *ssa.Call {
+		v = c08Strip(v)
+		if _, ok := bitLen(v); ok {
+			return v.(*ssa.Call)
+		}
+		if b, ok := v.(*ssa.BinOp); ok && d < 4 {
+			if x := find(b.X, d+1); x != nil {
+				return x
+			}
+			return find(b.Y, d+1)
+		}
+		return nil
+	}
+	call := find(n, 0)
+	if call == nil {
+		return "", ""
+	}
+	fname, _ := bitLen(call)
+	arg := call.Common().Args[0]
+	cv, isC := arg.(*ssa.Convert)
+	at, _ := arg.Type().Underlying().(*types.Basic)
+	if !isC || c08Strip(arg) != ssa.Value(param) || at == nil {
+		return "", "the bit length is not taken of the length parameter"
+	}
+	_ = cv
+	switch {
+	case fname == "math/bits.Len" && at.Kind() == types.Uint, fname == "math/bits.Len64" && at.Kind() == types.Uint64:
+	default:
+		return "", fmt.Sprintf("%s(%s(length)) drops the high bits of an int length", fname, at.Name())
+	}
+	// (call + 7) / 8  or  (call + 7) >> 3
+	top, ok := c08Strip(n).(*ssa.BinOp)
+	if !ok {
+		return "", "the octet count is not (bitlen + 7) / 8"
+	}
+	kv, isK := c08ConstInt(top.Y)
+	if !isK || !((top.Op == token.QUO && kv.Int64() == 8) || (top.Op == token.SHR && kv.Int64() == 3)) {
+		return "", "the octet count is not (bitlen + 7) / 8"
+	}
+	sum, ok := c08Strip(top.X).(*ssa.BinOp)
+	if !ok || sum.Op != token.ADD {
+		return "", "the octet count is floor(bitlen / 8), not ceil: lengths whose bit length is not a multiple of 8 lose their leading octet"
+	}
+	x, k := sum.X, sum.Y
+	if _, isK := c08ConstInt(x); isK {
+		x, k = k, x
+	}
+	kk, isK := c08ConstInt(k)
+	if !isK || c08Strip(x) != ssa.Value(call) {
+		return "", "the octet count is not (bitlen + 7) / 8"
+	}
+	if kk.Int64() != 7 {
+		return "", fmt.Sprintf("the octet count is (bitlen + %s) / 8, not (bitlen + 7) / 8", kk)
+	}
+	return "N = (" + fname + "(length) + 7) / 8 = ceil(bitlen/8) for the positive length of the long form", ""
+}
+
+// octetsLadder: N is a join of constants; constant k may enter the join only
+// on edges where 256^(k-1) <= length <= 256^k - 1 is proved.
+func (c *c08) octetsLadder(fi *prove.FuncInfo, np *ssa.Phi, param *ssa.Parameter) string {
+	seen := map[*ssa.Phi]bool{}
+	var walk func(p *ssa.Phi) string
+	walk = func(p *ssa.Phi) string {
+		if seen[p] || c08IsLoopHeader(p.Block()) {
+			return "the octet count is computed in a loop of an unrecognised form"
+		}
+		seen[p] = true
+		for i, e := range p.Edges {
+			if q, isP := c08Strip(e).(*ssa.Phi); isP {
+				if why := walk(q); why != "" {
+					return why
+				}
+				continue
+			}
+			k, isK := c08ConstInt(e)
+			if !isK || !k.IsInt64() || k.Int64() < 1 || k.Int64() > 8 {
+				return "the octet count is neither a counting loop, a bit-length formula nor a choice of constants 1..8"
+			}
+			ctx := fi.CtxEdge(p.Block().Preds[i], p.Block())
+			pf := ctx.Lin(param)
+			lo := new(big.Int).Lsh(big.NewInt(1), uint(8*(k.Int64()-1)))
+			hi := new(big.Int).Sub(new(big.Int).Lsh(big.NewInt(1), uint(8*k.Int64())), big.NewInt(1))
+			if k.Int64() > 1 && !ctx.Prove(lin.GE(pf, lin.KB(lo))) {
+				return fmt.Sprintf("%d octets are chosen for lengths not proved >= %s: a superfluous leading zero octet", k.Int64(), lo)
+			}
+			if !ctx.Prove(lin.LE(pf, lin.KB(hi))) {
+				return fmt.Sprintf("%d octets are chosen for lengths not proved <= %s: the leading octets are lost", k.Int64(), hi)
+			}
+		}
+		return ""
+	}
+	return walk(np)
 }
 
 // gssHeader: 0x60, length octets for exactly what follows, then the two DER blobs.
@@ -425,46 +659,142 @@ func (c *c08) gssHeader(fname string) {
 			r.Fail(rule, name, c.pos(fn.Pos()), "constant GSS_API_SPNEGO is not 0x60 ([APPLICATION 0] constructed)")
 			return
 		}
-		if len(ps) != 4 || ps[0].Kind != "const" || len(ps[0].Const) != 1 || ps[0].Const[0] != 0x60 || ps[1].Kind != "alt" || len(ps[1].Alts) != 2 || ps[2].Kind != "bytes" || ps[3].Kind != "bytes" {
+		n := len(ps)
+		if n < 4 || ps[0].Kind != "const" || len(ps[0].Const) != 1 || ps[0].Const[0] != 0x60 || ps[n-2].Kind != "bytes" || ps[n-1].Kind != "bytes" {
 			r.Fail(rule, name, c.pos(fn.Pos()), "the token is not 0x60, length octets (short | long), SPNEGO OID, inner token: "+codec.RenderPieces(ps))
 			return
 		}
 		z := codec.NewSym()
-		T := z.LenOf(ps[2].Src).Add(z.LenOf(ps[3].Src))
-		fi := c.w.Info(fn)
+		T := z.LenOfIn(ps[n-2].Src, ps[n-2].Frame).Add(z.LenOfIn(ps[n-1].Src, ps[n-1].Frame))
 		encLen := c.P.Func(c08SPNEGO, "", "encodeLength")
-		var short, long []*codec.Piece
-		for _, a := range ps[1].Alts {
-			switch len(a.Pieces) {
+
+		// The length octets, as alternatives with the program points at which
+		// each is chosen. Three shapes are read:
+		//   (A) a join of {byte(T)} and {0x80|n, encodeLength(T)};
+		//   (B) a join of {} and {0x80|n} followed on both paths by encodeLength(T)
+		//       (whose own short form is the single octet byte(T), see R5.encode-length);
+		//   (C) the result of an in-module helper whose returns are those alternatives.
+		type lenCase struct {
+			pieces []*codec.Piece
+			ctxs   []func() *prove.Ctx // contexts in which the case is taken, most specific first
+			at     ssa.Instruction
+		}
+		var cases []lenCase
+		mid := ps[1 : n-2]
+		edgeCtx := func(a codec.Alt) func() *prove.Ctx {
+			return func() *prove.Ctx { return c.w.Info(a.Pred.Parent()).CtxEdge(a.Pred, a.Join) }
+		}
+		atCtx := func(in ssa.Instruction) func() *prove.Ctx {
+			return func() *prove.Ctx { return c.w.Info(in.Parent()).CtxBefore(in) }
+		}
+		switch {
+		case len(mid) == 1 && mid[0].Kind == "alt" && len(mid[0].Alts) == 2:
+			for _, a := range mid[0].Alts {
+				lc := lenCase{pieces: a.Pieces, at: mid[0].At}
+				if len(a.Pieces) > 0 && a.Pieces[0].At != nil {
+					lc.ctxs = append(lc.ctxs, atCtx(a.Pieces[0].At))
+				}
+				if a.Pred != nil {
+					lc.ctxs = append(lc.ctxs, edgeCtx(a))
+				}
+				cases = append(cases, lc)
+			}
+		case len(mid) == 2 && mid[0].Kind == "alt" && len(mid[0].Alts) == 2 && mid[1].Kind == "bytes":
+			for _, a := range mid[0].Alts {
+				lc := lenCase{pieces: append(append([]*codec.Piece(nil), a.Pieces...), mid[1]), at: mid[0].At}
+				if len(a.Pieces) > 0 && a.Pieces[0].At != nil {
+					lc.ctxs = append(lc.ctxs, atCtx(a.Pieces[0].At))
+				}
+				if a.Pred != nil {
+					lc.ctxs = append(lc.ctxs, edgeCtx(a))
+				}
+				cases = append(cases, lc)
+			}
+		case len(mid) == 1 && mid[0].Kind == "bytes" && mid[0].Callee != nil && mid[0].Callee != encLen:
+			call, _ := mid[0].Src.(*ssa.Call)
+			if ex, isEx := mid[0].Src.(*ssa.Extract); isEx {
+				call, _ = ex.Tuple.(*ssa.Call)
+			}
+			if call != nil {
+				if alts, rets, ok := st.CalleeReturns(call, mid[0].Frame); ok {
+					for i, a := range alts {
+						cases = append(cases, lenCase{pieces: a, ctxs: []func() *prove.Ctx{atCtx(rets[i])}, at: rets[i]})
+					}
+				}
+			}
+		}
+		if len(cases) != 2 {
+			r.Fail(rule, name, c.pos(fn.Pos()), "the token is not 0x60, length octets (short | long), SPNEGO OID, inner token: "+codec.RenderPieces(ps))
+			return
+		}
+		for _, lc := range cases {
+			for _, p := range lc.pieces {
+				if p.Kind == "unknown" {
+					r.Undecided(rule, name, c.ipos(p.At), "the length octets cannot be read off: "+p.Why)
+					return
+				}
+			}
+		}
+		// lengthOf: the integer whose DER encoding piece p carries, as an SSA value
+		// of the function the piece was read in (so that E1 can bound it there).
+		encArg := func(p *codec.Piece) (ssa.Value, *ssa.Call) {
+			call, f := c08StaticCall(p.Src)
+			if p.Kind != "bytes" || call == nil || f == nil || f != encLen {
+				return nil, nil
+			}
+			return call.Common().Args[0], call
+		}
+		proveIn := func(lc lenCase, v ssa.Value, goal func(f lin.Form) lin.Con) bool {
+			for _, mk := range lc.ctxs {
+				ctx := mk()
+				if ctx.Prove(goal(ctx.Lin(v))) {
+					return true
+				}
+			}
+			return false
+		}
+		var short, long *lenCase
+		for i := range cases {
+			switch len(cases[i].pieces) {
 			case 1:
-				short = a.Pieces
+				short = &cases[i]
 			case 2:
-				long = a.Pieces
+				long = &cases[i]
 			}
 		}
 		if short == nil || long == nil {
-			r.Fail(rule, name, c.ipos(ps[1].At), "the length octets are not a one-octet form and a marker+octets form: "+ps[1].String())
+			r.Fail(rule, name, c.ipos(cases[0].at), "the length octets are not a one-octet form and a marker+octets form: "+codec.RenderPieces(mid))
 			return
 		}
-		// short form
-		sv := short[0]
-		if sv.Kind != "byte" || !z.Of(sv.Val).Equal(T) {
-			r.Fail(rule, name, c.ipos(sv.At), fmt.Sprintf("the short-form octet is %s, not the combined length %s of what follows", z.String(z.Of(sv.Val)), z.String(T)))
+		// short form: the single octet byte(T), written directly or by encodeLength
+		sv := short.pieces[0]
+		var sval ssa.Value
+		if arg, _ := encArg(sv); arg != nil {
+			sval = arg
+		} else if sv.Kind == "byte" {
+			sval = c08Strip(sv.Val)
+		}
+		if sval == nil || !z.OfIn(sval, sv.Frame).Equal(T) {
+			got := sv.String()
+			if sval != nil {
+				got = z.String(z.OfIn(sval, sv.Frame))
+			}
+			r.Fail(rule, name, c.ipos(sv.At), fmt.Sprintf("the short-form octet is %s, not the combined length %s of what follows", got, z.String(T)))
 			return
 		}
-		if ctx := fi.CtxBefore(sv.At); !ctx.Prove(lin.LE(ctx.Lin(c08Strip(sv.Val)), lin.K(127))) {
+		if !proveIn(*short, sval, func(f lin.Form) lin.Con { return lin.LE(f, lin.K(127)) }) {
 			r.Fail(rule, name, c.ipos(sv.At), "the short form is used for lengths not proved < 128")
 			return
 		}
 		// long form
-		mv, lb := long[0], long[1]
-		call, f := c08StaticCall(lb.Src)
-		if lb.Kind != "bytes" || call == nil || f == nil || f != encLen {
+		mv, lb := long.pieces[0], long.pieces[1]
+		larg, call := encArg(lb)
+		if larg == nil {
 			r.Fail(rule, name, c.ipos(lb.At), "the long-form octets are not produced by encodeLength")
 			return
 		}
-		if !z.Of(call.Common().Args[0]).Equal(T) {
-			r.Fail(rule, name, c.ipos(call), fmt.Sprintf("encodeLength is applied to %s, not to the combined length %s of what follows", z.String(z.Of(call.Common().Args[0])), z.String(T)))
+		if !z.OfIn(larg, lb.Frame).Equal(T) {
+			r.Fail(rule, name, c.ipos(call), fmt.Sprintf("encodeLength is applied to %s, not to the combined length %s of what follows", z.String(z.OfIn(larg, lb.Frame)), z.String(T)))
 			return
 		}
 		okMarker := false
@@ -474,7 +804,7 @@ func (c *c08) gssHeader(fname string) {
 				if _, isK := c08ConstInt(x); isK {
 					x, k = k, x
 				}
-				if kv, isK := c08ConstInt(k); isK && kv.Int64() == 0x80 && z.Of(x).Equal(z.LenOf(lb.Src)) {
+				if kv, isK := c08ConstInt(k); isK && kv.Int64() == 0x80 && z.OfIn(x, mv.Frame).Equal(z.LenOfIn(lb.Src, lb.Frame)) {
 					okMarker = true
 				}
 			}
@@ -483,12 +813,185 @@ func (c *c08) gssHeader(fname string) {
 			r.Fail(rule, name, c.ipos(mv.At), "the long-form marker is not 0x80 | len(length octets)")
 			return
 		}
-		if ctx := fi.CtxBefore(mv.At); !ctx.Prove(lin.GE(ctx.Lin(call.Common().Args[0]), lin.K(128))) {
+		if !proveIn(*long, larg, func(f lin.Form) lin.Con { return lin.GE(f, lin.K(128)) }) {
 			r.Fail(rule, name, c.ipos(mv.At), "the long form is used for lengths not proved >= 128")
 			return
 		}
-		r.OK(rule, name, c.pos(fn.Pos()), "0x60; T<128 ⇒ byte(T) else 0x80|n, encodeLength(T); then the OID and the token, T = "+z.String(T))
+		how := "0x60; T<128 ⇒ byte(T) else 0x80|n, encodeLength(T)"
+		if _, viaEnc := encArg(sv); viaEnc != nil {
+			how = "0x60; T>=128 ⇒ 0x80|n; encodeLength(T) (one octet byte(T) when T<128)"
+		}
+		r.OK(rule, name, c.pos(fn.Pos()), how+"; then the OID and the token, T = "+z.String(T))
 	})
+}
+
+// c08Contents says where an entry parser hands the GSS-API contents to the DER
+// parser: in function g (the parser itself or a helper it delegates the header
+// to), whose parameter gdata is the token, the contents start at one of the
+// offsets offs (each valid on the paths through its block); the tag check must
+// dominate every anchor.
+type c08Contents struct {
+	g       *ssa.Function
+	gdata   *ssa.Parameter
+	offs    []ssa.Value
+	blocks  []*ssa.BasicBlock
+	anchors []ssa.Instruction
+	at      ssa.Instruction
+	via     string
+}
+
+// c08ErrChecked: the error result of call is tested and block use is reached
+// only when it is nil.
+func c08ErrChecked(call *ssa.Call, use *ssa.BasicBlock) bool {
+	if call.Referrers() == nil {
+		return false
+	}
+	for _, r := range *call.Referrers() {
+		ex, ok := r.(*ssa.Extract)
+		if !ok || !types.Identical(ex.Type(), types.Universe.Lookup("error").Type()) || ex.Referrers() == nil {
+			continue
+		}
+		for _, rr := range *ex.Referrers() {
+			cmp, ok := rr.(*ssa.BinOp)
+			if !ok || (cmp.Op != token.NEQ && cmp.Op != token.EQL) || cmp.Referrers() == nil {
+				continue
+			}
+			other := cmp.Y
+			if other == ssa.Value(ex) {
+				other = cmp.X
+			}
+			if k, isK := other.(*ssa.Const); !isK || k.Value != nil {
+				continue
+			}
+			for _, u := range *cmp.Referrers() {
+				iff, ok := u.(*ssa.If)
+				if !ok {
+					continue
+				}
+				pass := iff.Block().Succs[0]
+				if cmp.Op == token.NEQ {
+					pass = iff.Block().Succs[1]
+				}
+				if len(pass.Preds) == 1 && (pass == use || pass.Dominates(use)) {
+					return true
+				}
+			}
+		}
+	}
+	return false
+}
+
+// c08SuccessReturns: the returns of f whose last result is the nil error.
+func c08SuccessReturns(f *ssa.Function) []*ssa.Return {
+	var out []*ssa.Return
+	for _, b := range f.Blocks {
+		ret, ok := b.Instrs[len(b.Instrs)-1].(*ssa.Return)
+		if !ok || len(ret.Results) < 2 {
+			continue
+		}
+		if k, isK := ret.Results[len(ret.Results)-1].(*ssa.Const); isK && k.Value == nil {
+			out = append(out, ret)
+		}
+	}
+	return out
+}
+
+func (c *c08) argIndex(call *ssa.Call, v ssa.Value) (*ssa.Function, *ssa.Parameter) {
+	f := call.Common().StaticCallee()
+	if f == nil || f.Blocks == nil || !c.P.InModule(f) {
+		return nil, nil
+	}
+	for i, a := range call.Common().Args {
+		if a == v && i < len(f.Params) {
+			return f, f.Params[i]
+		}
+	}
+	return nil, nil
+}
+
+// locateContents finds the first asn1.Unmarshal applied to a tail of data, in fn
+// or in a helper (up to two levels) that fn hands the token to.
+func (c *c08) locateContents(fn *ssa.Function, data *ssa.Parameter, depth int) (*c08Contents, string) {
+	var ucall *ssa.Call
+	var delegate *ssa.Call // first in-module call receiving data before any Unmarshal
+	for _, b := range fn.DomPreorder() {
+		for _, in := range b.Instrs {
+			call, f := c08StaticCall(c08ValueOf(in))
+			if call == nil || ucall != nil {
+				continue
+			}
+			if f != nil && f.String() == "encoding/asn1.Unmarshal" {
+				ucall = call
+				continue
+			}
+			if h, _ := c.argIndex(call, data); h != nil && delegate == nil {
+				delegate = call
+			}
+		}
+	}
+	if ucall != nil {
+		arg := ucall.Common().Args[0]
+		// (1) asn1.Unmarshal(data[off:], …)
+		if sl, ok := arg.(*ssa.Slice); ok && sl.X == ssa.Value(data) && sl.Low != nil && sl.High == nil && sl.Max == nil {
+			// (1a) off computed by a helper: off, err := headerLen(data)
+			low := c08Strip(sl.Low)
+			if ex, isEx := low.(*ssa.Extract); isEx && ex.Index == 0 {
+				if hc, isC := ex.Tuple.(*ssa.Call); isC {
+					if h, hp := c.argIndex(hc, data); h != nil && depth < 2 {
+						if !c08ErrChecked(hc, ucall.Block()) {
+							return nil, "the offset returned by " + h.Name() + " is used without its error being checked"
+						}
+						ct := &c08Contents{g: h, gdata: hp, at: ucall, via: " (offset computed by helper " + h.Name() + ")"}
+						for _, ret := range c08SuccessReturns(h) {
+							ct.offs = append(ct.offs, ret.Results[0])
+							ct.blocks = append(ct.blocks, ret.Block())
+							ct.anchors = append(ct.anchors, ret)
+						}
+						if len(ct.offs) == 0 {
+							return nil, "helper " + h.Name() + " has no success return"
+						}
+						return ct, ""
+					}
+				}
+			}
+			return &c08Contents{g: fn, gdata: data, offs: []ssa.Value{sl.Low}, blocks: []*ssa.BasicBlock{sl.Block()}, anchors: []ssa.Instruction{ucall}, at: ucall}, ""
+		}
+		// (2) asn1.Unmarshal(contents, …) with contents, err := helper(data)
+		if ex, isEx := arg.(*ssa.Extract); isEx && ex.Index == 0 {
+			if hc, isC := ex.Tuple.(*ssa.Call); isC {
+				if h, hp := c.argIndex(hc, data); h != nil && depth < 2 {
+					if !c08ErrChecked(hc, ucall.Block()) {
+						return nil, "the contents returned by " + h.Name() + " are parsed without its error being checked"
+					}
+					ct := &c08Contents{g: h, gdata: hp, at: ucall, via: " (contents cut by helper " + h.Name() + ")"}
+					for _, ret := range c08SuccessReturns(h) {
+						sl, ok := ret.Results[0].(*ssa.Slice)
+						if !ok || sl.X != ssa.Value(hp) || sl.Low == nil || sl.High != nil || sl.Max != nil {
+							return nil, "helper " + h.Name() + " does not return data[offset:]"
+						}
+						ct.offs = append(ct.offs, sl.Low)
+						ct.blocks = append(ct.blocks, ret.Block())
+						ct.anchors = append(ct.anchors, ret)
+					}
+					if len(ct.offs) == 0 {
+						return nil, "helper " + h.Name() + " has no success return"
+					}
+					return ct, ""
+				}
+			}
+		}
+	}
+	// (3) the whole header handling, DER call included, lives in a helper
+	if delegate != nil && depth < 2 {
+		h, hp := c.argIndex(delegate, data)
+		if ct, why := c.locateContents(h, hp, depth+1); ct != nil {
+			if ct.via == "" {
+				ct.via = " (in helper " + h.Name() + ")"
+			}
+			return ct, why
+		}
+	}
+	return nil, "no asn1.Unmarshal(data[offset:], …) found"
 }
 
 // gssSkip: the parsers check the tag and skip exactly the length octets.
@@ -501,30 +1004,16 @@ func (c *c08) gssSkip(fname string) {
 	}
 	c.guard("R5.gss-skip", name, c.pos(fn.Pos()), func() {
 		r := c.R
-		data := fn.Params[len(fn.Params)-1]
+		entry := fn.Params[0]
 		if fn.Signature.Recv() != nil {
-			data = fn.Params[1]
-		} else {
-			data = fn.Params[0]
+			entry = fn.Params[1]
 		}
-		// the first asn1.Unmarshal applied to a tail of the parameter
-		var sl *ssa.Slice
-		var ucall *ssa.Call
-		for _, b := range fn.DomPreorder() {
-			for _, in := range b.Instrs {
-				call, f := c08StaticCall(c08ValueOf(in))
-				if call == nil || f == nil || f.String() != "encoding/asn1.Unmarshal" || sl != nil {
-					continue
-				}
-				if s, ok := call.Common().Args[0].(*ssa.Slice); ok && s.X == ssa.Value(data) {
-					sl, ucall = s, call
-				}
-			}
-		}
-		if sl == nil || sl.Low == nil || sl.High != nil {
-			r.Undecided("R5.gss-skip", name, c.pos(fn.Pos()), "no asn1.Unmarshal(data[offset:], …) found")
+		ct, why := c.locateContents(fn, entry, 0)
+		if ct == nil {
+			r.Undecided("R5.gss-skip", name, c.pos(fn.Pos()), why)
 			return
 		}
+		g, data := ct.g, ct.gdata
 		byteAt := func(v ssa.Value, i int64) bool {
 			u, ok := c08Strip(v).(*ssa.UnOp)
 			if !ok || u.Op != token.MUL {
@@ -542,7 +1031,7 @@ func (c *c08) gssSkip(fname string) {
 			tag, okc := c08PkgConst(c.P, c08SPNEGO, "GSS_API_SPNEGO")
 			ok := false
 			if okc && tag.Int64() == 0x60 {
-				for _, b := range fn.Blocks {
+				for _, b := range g.Blocks {
 					iff, isIf := b.Instrs[len(b.Instrs)-1].(*ssa.If)
 					if !isIf {
 						continue
@@ -563,15 +1052,21 @@ func (c *c08) gssSkip(fname string) {
 					if cmp.Op == token.NEQ {
 						pass = b.Succs[1]
 					}
-					if len(pass.Preds) == 1 && (pass == ucall.Block() || pass.Dominates(ucall.Block())) {
+					all := len(pass.Preds) == 1
+					for _, an := range ct.anchors {
+						if !(pass == an.Block() || pass.Dominates(an.Block())) {
+							all = false
+						}
+					}
+					if all {
 						ok = true
 					}
 				}
 			}
 			if ok {
-				r.OK("R5.gss-tag", name, c.ipos(ucall), "data[0] == GSS_API_SPNEGO (0x60) on every path to the DER parser")
+				r.OK("R5.gss-tag", name, c.ipos(ct.at), "data[0] == GSS_API_SPNEGO (0x60) on every path to the DER parser"+ct.via)
 			} else {
-				r.Fail("R5.gss-tag", name, c.ipos(ucall), "the 0x60 application tag at data[0] is not checked before the contents are parsed")
+				r.Fail("R5.gss-tag", name, c.ipos(ct.at), "the 0x60 application tag at data[0] is not checked before the contents are parsed")
 			}
 		}
 		// skip
@@ -585,41 +1080,58 @@ func (c *c08) gssSkip(fname string) {
 				return true, set == truth
 			}
 		}
-		vLong := c08NewBranchView(fn, test(true))
-		vShort := c08NewBranchView(fn, test(false))
+		vLong := c08NewBranchView(g, test(true))
+		vShort := c08NewBranchView(g, test(false))
 		if vLong.tests == 0 {
-			r.Fail("R5.gss-skip", name, c.ipos(sl), "no branch tests data[1] & 0x80 (long-form marker)")
+			r.Fail("R5.gss-skip", name, c.ipos(ct.at), "no branch tests data[1] & 0x80 (long-form marker)")
 			return
 		}
 		z := codec.NewSym()
-		for _, l := range vShort.leaves(sl.Low) {
-			if k, isK := c08ConstInt(l); !isK || k.Int64() != 2 {
-				r.Fail("R5.gss-skip", name, c.ipos(sl), "with the short form (data[1] < 0x80) the contents are taken from offset "+z.String(z.Of(l))+", not 2")
-				return
+		nShort, nLong := 0, 0
+		for i, off := range ct.offs {
+			if !vShort.live[ct.blocks[i]] {
+				continue
 			}
-		}
-		for _, l := range vLong.leaves(sl.Low) {
-			f := z.Of(l)
-			ts := f.Terms()
-			ok := false
-			if len(ts) == 1 && f.C.IsInt64() && f.C.Int64() == 2 && f.Coef[ts[0]].IsInt64() && f.Coef[ts[0]].Int64() == 1 {
-				v, isLen := z.TermValue(ts[0])
-				if b, isB := v.(*ssa.BinOp); isB && !isLen && b.Op == token.AND {
-					x, k := b.X, b.Y
-					if _, isK := c08ConstInt(x); isK {
-						x, k = k, x
-					}
-					if kv, isK := c08ConstInt(k); isK && kv.Int64() == 0x7F && byteAt(x, 1) {
-						ok = true
-					}
+			for _, l := range vShort.leaves(off) {
+				nShort++
+				if k, isK := c08ConstInt(l); !isK || k.Int64() != 2 {
+					r.Fail("R5.gss-skip", name, c.ipos(ct.at), "with the short form (data[1] < 0x80) the contents are taken from offset "+z.String(z.Of(l))+", not 2")
+					return
 				}
 			}
-			if !ok {
-				r.Fail("R5.gss-skip", name, c.ipos(sl), "with the long form the contents are taken from offset "+z.String(f)+", not 2 + (data[1] & 0x7F) — the structural mirror of 0x80|n followed by n length octets")
-				return
+		}
+		for i, off := range ct.offs {
+			if !vLong.live[ct.blocks[i]] {
+				continue
+			}
+			for _, l := range vLong.leaves(off) {
+				nLong++
+				f := z.Of(l)
+				ts := f.Terms()
+				ok := false
+				if len(ts) == 1 && f.C.IsInt64() && f.C.Int64() == 2 && f.Coef[ts[0]].IsInt64() && f.Coef[ts[0]].Int64() == 1 {
+					v, isLen := z.TermValue(ts[0])
+					if b, isB := v.(*ssa.BinOp); isB && !isLen && b.Op == token.AND {
+						x, k := b.X, b.Y
+						if _, isK := c08ConstInt(x); isK {
+							x, k = k, x
+						}
+						if kv, isK := c08ConstInt(k); isK && kv.Int64() == 0x7F && byteAt(x, 1) {
+							ok = true
+						}
+					}
+				}
+				if !ok {
+					r.Fail("R5.gss-skip", name, c.ipos(ct.at), "with the long form the contents are taken from offset "+z.String(f)+", not 2 + (data[1] & 0x7F) — the structural mirror of 0x80|n followed by n length octets")
+					return
+				}
 			}
 		}
-		r.OK("R5.gss-skip", name, c.ipos(sl), "contents start at 2 (short form) or 2 + (data[1] & 0x7F) (long form)")
+		if nShort == 0 || nLong == 0 {
+			r.Fail("R5.gss-skip", name, c.ipos(ct.at), "the contents offset is not defined for both the short and the long length form")
+			return
+		}
+		r.OK("R5.gss-skip", name, c.ipos(ct.at), "contents start at 2 (short form) or 2 + (data[1] & 0x7F) (long form)"+ct.via)
 	})
 }
 
